@@ -15,7 +15,7 @@ from __future__ import annotations
 
 from urllib.parse import urljoin
 
-from kit.h import P, run, mark, known
+from kit.h import P, run, mark, known, concretize
 from kit import net as N
 from kit import env as E
 
@@ -278,7 +278,7 @@ def c05_policy(front: int, layer: int, kind: int, k: int, j: int, ror: bool, red
                req_kind: int, rk2: int) -> bool:
     """
     pre: front == P.front and layer in P.layers and kind in P.kinds
-    pre: 0 <= k and 0 <= j and (kind == 5 or j == 0) and (kind >= 2 or k == 0)
+    pre: 0 <= k and 0 <= j and (kind == 5 or j == 0) and (kind >= 2 or k == 0) and (P.kmax is None or k <= P.kmax)
     pre: kind >= 3 or ror
     pre: status_i in P.statuses and req_kind == 0 and 0 <= rk2 <= 1 and (layer == 2 or rk2 == 0)
     post: _
@@ -463,6 +463,14 @@ def c05_chain(kind: int, k: int, j: int, ror: bool, layer: int, route_i: int, st
     return run(_chain_body, kind, k, j, ror, layer, route_i, status_i)
 
 
+def setup():
+    """_make_request (connect, send, http.client's status/header parsing) only ever sees concrete data in these harnesses:
+    method, target, headers and body are fixtures, and the Retry object with the symbolic budgets is merely stored on the
+    response there.  It runs outside the tracer — same real code, just not interpreted opcode by opcode."""
+    if not hasattr(HTTPConnectionPool._make_request, "__wrapped__"):
+        HTTPConnectionPool._make_request = N._untraced(HTTPConnectionPool._make_request)
+
+
 def JOBS(tier):
     quick = tier == "quick"
     t = 150 if quick else 900
@@ -472,7 +480,7 @@ def JOBS(tier):
             for loc in ((1,) if quick else (0, 1, 5)):
                 jobs.append({"func": "c05_policy", "timeout": t, "path_timeout": 60,
                              "part": {"front": front, "layers": [0, 1, 2], "kinds": [kind], "statuses": [1, 2, 3] if not quick else [1, 2],
-                                      "loc": loc if front != 2 else 5}})
+                                      "kmax": 4 if kind == 2 else None, "loc": loc if front != 2 else 5}})
         for st in ((0, 1, 2, 3, 4, 6, 8) if quick else range(len(STATUSES))):
             jobs.append({"func": "c05_location", "timeout": t, "path_timeout": 60,
                          "part": {"front": front, "statuses": [st], "locs": list(range(len(LOCS))), "tie": quick,
@@ -485,7 +493,7 @@ def JOBS(tier):
 
 EVIDENCE = {
     "bounds": {"quick": "one hop (re-entry cut) x 3 front-ends (PoolManager, ProxyManager over a forwarding proxy, bare pool) x 7 policy "
-                        "spellings with UNBOUNDED integer budgets k,j >= 0 x raise_on_redirect x 3 layers (request / constructor / both) x "
+                        "spellings with UNBOUNDED integer budgets k,j >= 0 (plain-int spelling: k <= 4) x raise_on_redirect x 3 layers (request / constructor / both) x "
                         "redirect flag x {302,303}; follow-up request: 9 statuses x 13 Location forms x {GET,POST} x body x 2 header "
                         "spellings (dict / HTTPHeaderDict); closed endless chains over 1-3 origins with budgets <= 2",
                "thorough": "statuses {302,303,307}, Location forms {same origin, other host, path}, all 5 methods, chain budgets <= 5 and all redirecting statuses"},
